@@ -203,13 +203,20 @@ pub fn worker(def: &PropDef, cli: &Cli) -> i32 {
                     let mdetail = (def.judge)(&mw, &mr).map(|x| x.1).unwrap_or(detail);
                     // strict replay must reproduce the same decisions and the same clause
                     let dec: Vec<Choice> = mr.out.steps.iter().map(|s| s.choice.clone()).collect();
-                    let again = simulate(&env, &mw, Mode::Forced { list: dec, pos: 0, tolerant: false }, &opts);
-                    let ok = !again.out.infeasible && decisions_hash(&again) == decisions_hash(&mr) && (def.judge)(&mw, &again).map(|x| x.0) == Some(clause.clone());
-                    if !ok {
-                        harness_error(&format!("lspsim {}: minimised run {i} does not replay exactly (infeasible={} clause={:?})", def.id, again.out.infeasible, (def.judge)(&mw, &again)));
+                    let mut exact = false;
+                    for _attempt in 0..3 {
+                        let again = simulate(&env, &mw, Mode::Forced { list: dec.clone(), pos: 0, tolerant: false }, &opts);
+                        if !again.out.infeasible && decisions_hash(&again) == decisions_hash(&mr) && (def.judge)(&mw, &again).map(|x| x.0) == Some(clause.clone()) {
+                            exact = true;
+                            break;
+                        }
                     }
+                    // A violation that was observed but does not replay exactly means the code under test has a source
+                    // of nondeterminism behind the seams (seen: the GC-related slab panic, C26-K3). It is still reported —
+                    // marked as such — instead of aborting the whole batch.
+                    line["replay_exact"] = json!(exact);
                     line["violation"] = json!({"clause": clause, "detail": mdetail, "signature": signature(def, &mw, &mr),
-                        "replay": replay_value(def, &mw, &opts, &mr, json!({"verif_seed": cli.seed, "run": i, "sub_seed": sub, "policy": pname}))});
+                        "replay": replay_value(def, &mw, &opts, &mr, json!({"verif_seed": cli.seed, "run": i, "sub_seed": sub, "policy": pname, "replays_exactly": exact}))});
                 }
             }
         }
@@ -337,6 +344,7 @@ pub fn coordinator(def: &PropDef, cli: &Cli) -> i32 {
     let mut by_class: BTreeMap<String, u64> = BTreeMap::new();
     let mut viol_by_class: BTreeMap<String, u64> = BTreeMap::new();
     let mut unminimised = 0u64;
+    let mut inexact = 0u64;
     for l in &lines {
         if let Some(m) = l["harness_error"].as_str() {
             harness_error(&format!("{}: {m}", def.id));
@@ -365,6 +373,9 @@ pub fn coordinator(def: &PropDef, cli: &Cli) -> i32 {
             }
             ev.violations += 1;
             *raw_classes.entry(c.to_string()).or_insert(0) += 1;
+        }
+        if l["replay_exact"].as_bool() == Some(false) {
+            inexact += 1;
         }
         if !l["violation"].is_null() {
             let v = &l["violation"];
@@ -396,6 +407,7 @@ pub fn coordinator(def: &PropDef, cli: &Cli) -> i32 {
     ev.set("sched_probes", json!(sched_probes));
     ev.set("max_distinct_abstract_states_in_one_run", json!(states));
     ev.set("violating_raw_classes", json!(raw_classes.len()));
+    ev.set("minimised_violations_that_did_not_replay_exactly", json!(inexact));
     ev.set("runs_by_workload_class", json!(by_class));
     ev.set("violating_runs_by_workload_class", json!(viol_by_class));
     ev.set("violating_runs_not_minimised (same raw class as an already minimised run, or beyond 40 per worker)", json!(unminimised));
